@@ -5,6 +5,8 @@ cd /verif
 fail=0
 for d in seeded/${1:-[C]*}/; do
   n=$(basename "$d"); id=${n%%-*}
+  # a change that its own property's check leaves to a neighbour (recorded in meta.json) is re-run against that one
+  id=$(python3 -c "import json,sys; c=json.load(open(sys.argv[1]))['checks_run_against_it']; own=sys.argv[2]; print(own if c.get(own,{}).get('outcome')=='caught' else next((k for k,v in c.items() if v.get('outcome')=='caught'), own))" "/verif/$d/meta.json" "$id")
   r=$(timeout 1500 tools/try_seeded.sh "/verif/$d/patch.diff" "$id" | head -1 | cut -c1-150)
   echo "$n: $r"
   case "$r" in CAUGHT*) ;; *) fail=1 ;; esac
